@@ -6,6 +6,7 @@ import (
 
 	"github.com/inbucket/inbucket/v3/pkg/config"
 	"github.com/inbucket/inbucket/v3/pkg/storage"
+	"github.com/inbucket/inbucket/v3/pkg/storage/file"
 	"github.com/inbucket/inbucket/v3/vsim/models"
 	"github.com/inbucket/inbucket/v3/vsim/simrt"
 )
@@ -49,7 +50,7 @@ func (r *storeRig) retention(i int, period time.Duration) {
 	}
 }
 
-var c10Kinds = []string{"add", "add", "add", "add", "get", "latest", "list", "seen", "seen", "remove", "purge", "visit", "reopen", "reopen", "retention"}
+var c10Kinds = []string{"add", "add", "add", "add", "get", "latest", "list", "seen", "seen", "remove", "purge", "visit", "reopen", "reopen", "retention", "addfail"}
 
 func init() {
 	register(&Prop{
@@ -61,12 +62,17 @@ func init() {
 			h.Names = pickNames(w, 1+w.Choose(4), true)
 			n := 8 + w.Choose(50)
 			h.Ops = genSOps(w, h.Names, n, 6000, c10Kinds, avoid)
+			if w.Choose(30) == 0 {
+				h.SkipIDs = 9980 + w.Choose(19) // the id counter is about to start over
+			}
 			for i := range h.Ops {
 				switch h.Ops[i].Kind {
 				case "reopen":
 					// gap in ms on top of the base; -1000 = the restart takes no simulated time at all
 					// (ids must stay unique even then: they must not depend on per-Store state)
 					h.Ops[i].Ref = []int{1, 978, 1955, 2932, -1000, -1000}[w.Choose(6)]
+					// the administrator may have changed the mailbox cap before starting the server again
+					h.Ops[i].NewCap = []int{0, 0, 0, 0, 2, 3, 5, -1}[w.Choose(8)]
 				case "retention":
 					h.Ops[i].Ref = []int{1, 60, 600, 3600, 7200, 30000, 90000}[w.Choose(7)] // period in seconds
 				}
@@ -77,10 +83,20 @@ func init() {
 		Run: func(c *Ctx, cs Case) {
 			h := cs.(*storeHistory)
 			r := newStoreRig(c, h.Cfgs[0])
+			if h.SkipIDs > 0 {
+				file.VerifSkipIDs(h.SkipIDs)
+				c.Stat("probe.histories_across_the_id_counter_wrap", 1)
+			}
 			reopens := 0
 			for i, o := range h.Ops {
 				switch o.Kind {
 				case "reopen":
+					switch {
+					case o.NewCap > 0:
+						r.cfg.Cap, r.model.Cap = o.NewCap, o.NewCap
+					case o.NewCap < 0:
+						r.cfg.Cap, r.model.Cap = 0, 0
+					}
 					r.reopen(time.Second + time.Duration(o.Ref)*time.Millisecond)
 					reopens++
 					c.Stat("fault.clean_restart", 1)
